@@ -2244,7 +2244,7 @@ function UnionType:update_fields()
     if size == 0 then
       self.is_empty = true
       size = typedefs.emptysize
-      align = size
+      align = math.max(align, size) -- zero sized fields still impose their alignment
     else
       self.is_empty = nil
       -- like in C, the union size is a multiple of its alignment
